@@ -76,7 +76,7 @@ var ReqVariants = map[string][]string{
 		// spellings a numeric parser takes for 13 but that are not the version token "13" (RFC 6455 §4.2.1: no leading zeros)
 		"num-013", "num-0013", "num-+13", "num-13.0", "num-0xd", "num-1_3", "num-13e0"},
 	"key":   {"canonical", "absent", "case-name", "blanks", "len23", "len25", "nonbase64-24", "decodes-17", "decodes-18", "empty", "dup-same", "dup-diff", "len16raw", "cr-inside", "cr-cr-tail", "cr-tail"},
-	"extra": {"none", "some", "long-value", "many", "no-colon-line", "empty-name", "cr-only-line", "token-names", "blank-value"},
+	"extra": {"none", "some", "long-value", "many", "no-colon-line", "empty-name", "cr-only-line", "token-names", "blank-value", "response-only-headers"},
 	"eol":   {"crlf", "lf"},
 }
 
@@ -379,6 +379,12 @@ func BuildReq(rng *rand.Rand, choice map[string]string, protoHdrs, extHdrs []str
 		// RFC 7230 3.2.6: a field name is a token, and a token has more characters than letters, digits and '-'
 		for i := 0; i < 1+rng.Intn(3); i++ {
 			add(TokenNames[rng.Intn(len(TokenNames))], " v"+fmt.Sprint(rng.Intn(1000)))
+		}
+	case "response-only-headers":
+		// headers that mean something in the OTHER direction of the handshake only (a proxy echoing them, a confused
+		// client): to the server they are headers like any other
+		for _, h := range [][2]string{{"Sec-WebSocket-Accept", " s3pPLMBiTxaQ9kYGzzhZRbK+xOo="}, {"sec-websocket-accept", " x"}, {"Server", " nginx"}}[:1+rng.Intn(3)] {
+			add(h[0], h[1])
 		}
 	case "blank-value":
 		// a field value may be empty, or nothing but optional whitespace
